@@ -48,10 +48,10 @@ next run, whatever states the generated population reaches.
 | 1510044218 | if | `msg.Amount.Amount.LT(lend.GetLend(msg.LendId).AmountIn.Amount)` |
 | 65846717 | if | `lend.HasBorrowForAddressByPair(msg.Borrower, msg.PairId)` |
 | 2039287544 | if | `!lend.GetLendPair(lend.GetBorrow(lend.GetBorrowIDForAddressByPair(msg.Borrower, msg.PairId)).PairID).IsInterPool` |
-| 2683302889 | if | `lend.GetBorrow(lend.GetBorrowIDForAddressByPair(msg.Borrower, msg.PairId)).BridgedAssetAmount.De…9feff3e9…oduleName, asset.GetAsset(acc(new(uint64))).Denom)))` |
-| 3145126874 | if | `market.CalcAssetPrice(lend.GetLendPair(lend.GetBorrow(lend.GetBorrowIDForAddressByPair(msg.Borro…bb76d3da…oduleName, asset.GetAsset(acc(new(uint64))).Denom)))` |
+| 2951588834 | if | `lend.GetBorrow(lend.GetBorrowIDForAddressByPair(msg.Borrower, msg.PairId)).BridgedAssetAmount.De…afedabe2…e), asset.GetAsset(acc(new(uint64))).Denom).Amount))` |
+| 2940275843 | if | `market.CalcAssetPrice(lend.GetLendPair(lend.GetBorrow(lend.GetBorrowIDForAddressByPair(msg.Borro…af410c83…e), asset.GetAsset(acc(new(uint64))).Denom).Amount))` |
 | 245005271 | if | `!lend.GetLendPair(msg.PairId).IsInterPool` |
-| 237177220 | if | `market.CalcAssetPrice(lend.GetLend(msg.LendId).AssetID, sdk.NewDec(msg.AmountIn.Amount.Int64()).…0e230984…oduleName, asset.GetAsset(acc(new(uint64))).Denom)))` |
+| 571477843 | if | `market.CalcAssetPrice(lend.GetLend(msg.LendId).AssetID, sdk.NewDec(msg.AmountIn.Amount.Int64()).…22100f53…e), asset.GetAsset(acc(new(uint64))).Denom).Amount))` |
 | 3819222389 | if | `msg.Amount.Amount.Equal(lend.GetBorrow(msg.BorrowId).AmountOut.Amount.Add(lend.GetBorrow(msg.BorrowId).InterestAccumulated.TruncateInt()))` |
 | 1035222583 | pos | `lend.GetBorrowInterestTracker(msg.BorrowId).ReservePoolInterest.TruncateInt().GT(0)` |
 | 1303515621 | if | `true` |
@@ -62,14 +62,14 @@ next run, whatever states the generated population reaches.
 | 923073885 | pos | `msg.Amount.Amount.Sub(lend.GetBorrowInterestTracker(msg.BorrowId).ReservePoolInterest.TruncateInt()).GT(0)` |
 | 3378415376 | pos | `lend.GetBorrow(msg.BorrowId).InterestAccumulated.Sub(lend.GetBorrowInterestTracker(msg.BorrowId).ReservePoolInterest).TruncateInt().GT(0)` |
 | 3563383436 | if | `!lend.GetLendPair(lend.GetBorrow(msg.BorrowId).PairID).IsInterPool` |
-| 1272532898 | if | `lend.GetBorrow(msg.BorrowId).BridgedAssetAmount.Denom == asset.GetAsset(acc(new(uint64))).Denom …4bd94fa2…oduleName, asset.GetAsset(acc(new(uint64))).Denom)))` |
-| 1858205449 | if | `market.CalcAssetPrice(lend.GetLendPair(lend.GetBorrow(msg.BorrowId).PairID).AssetIn, (sdk.NewDec…6ec1f709…oduleName, asset.GetAsset(acc(new(uint64))).Denom)))` |
+| 834123723 | if | `lend.GetBorrow(msg.BorrowId).BridgedAssetAmount.Denom == asset.GetAsset(acc(new(uint64))).Denom …31b7b7cb…e), asset.GetAsset(acc(new(uint64))).Denom).Amount))` |
+| 2625736130 | if | `market.CalcAssetPrice(lend.GetLendPair(lend.GetBorrow(msg.BorrowId).PairID).AssetIn, (sdk.NewDec…9c818dc2…e), asset.GetAsset(acc(new(uint64))).Denom).Amount))` |
 | 454575357 | if | `lend.HasBorrowForAddressByPair(msg.Lender, msg.PairId)` |
 | 3841182008 | if | `!lend.GetLendPair(lend.GetBorrow(lend.GetBorrowIDForAddressByPair(msg.Lender, msg.PairId)).PairID).IsInterPool` |
-| 2066943417 | if | `lend.GetBorrow(lend.GetBorrowIDForAddressByPair(msg.Lender, msg.PairId)).BridgedAssetAmount.Deno…7b330db9…oduleName, asset.GetAsset(acc(new(uint64))).Denom)))` |
-| 2410691814 | if | `market.CalcAssetPrice(lend.GetLendPair(lend.GetBorrow(lend.GetBorrowIDForAddressByPair(msg.Lende…8fb03ce6…oduleName, asset.GetAsset(acc(new(uint64))).Denom)))` |
-| 2975266668 | if | `market.CalcAssetPrice(lend.GetLend(lend.GetLendIDForAssetIDPoolID(msg.Lender, msg.AssetId, msg.P…b156f76c…oduleName, asset.GetAsset(acc(new(uint64))).Denom)))` |
-| 2865803140 | if | `market.CalcAssetPrice(lend.GetLend(lend.GetUserLendIDCounter() + 1).AssetID, sdk.NewDec(msg.Amou…aad0af84…oduleName, asset.GetAsset(acc(new(uint64))).Denom)))` |
+| 592850414 | if | `lend.GetBorrow(lend.GetBorrowIDForAddressByPair(msg.Lender, msg.PairId)).BridgedAssetAmount.Deno…23562dee…e), asset.GetAsset(acc(new(uint64))).Denom).Amount))` |
+| 4007953295 | if | `market.CalcAssetPrice(lend.GetLendPair(lend.GetBorrow(lend.GetBorrowIDForAddressByPair(msg.Lende…eee4838f…e), asset.GetAsset(acc(new(uint64))).Denom).Amount))` |
+| 1826140649 | if | `market.CalcAssetPrice(lend.GetLend(lend.GetLendIDForAssetIDPoolID(msg.Lender, msg.AssetId, msg.P…6cd8b1e9…e), asset.GetAsset(acc(new(uint64))).Denom).Amount))` |
+| 3309566615 | if | `market.CalcAssetPrice(lend.GetLend(lend.GetUserLendIDCounter() + 1).AssetID, sdk.NewDec(msg.Amou…c543fa97…e), asset.GetAsset(acc(new(uint64))).Denom).Amount))` |
 | 3070912315 | loop | `range acc(new([]uint64))` |
 | 397767742 | pos | `ite(ite(!lend.GetLendRewardTracker(lend.GetLend(each(acc(new([]uint64)))).ID)#2, LendRewardsTrac…17b5743e…(each(acc(new([]uint64)))))).TruncateInt(), 0).GT(0)` |
 | 2909833665 | if | `ite(ite(!lend.GetLendRewardTracker(lend.GetLend(each(acc(new([]uint64)))).ID)#2, LendRewardsTrac…ad7089c1…(new([]uint64)))).AssetID).TotalInterestAccumulated)` |
@@ -170,19 +170,19 @@ def exp_CloseLend : List LPin := [
 
 def exp_Borrow : List LPin := [
   ⟨.send, some .signer, some .pool, .msgCoin, false, [(true, 65846717), (true, 2039287544)], false, false⟩,
-  ⟨.send, some .signer, some .pool, .msgCoin, false, [(true, 65846717), (false, 2039287544), (true, 2683302889)], false, false⟩,
-  ⟨.send, some .pool, some .outPool, .asset, false, [(true, 65846717), (false, 2039287544), (true, 2683302889)], false, false⟩,
-  ⟨.send, some .signer, some .pool, .msgCoin, false, [(true, 65846717), (false, 2039287544), (false, 2683302889), (true, 3145126874)], false, false⟩,
-  ⟨.send, some .pool, some .outPool, .asset, false, [(true, 65846717), (false, 2039287544), (false, 2683302889), (true, 3145126874)], false, false⟩,
+  ⟨.send, some .signer, some .pool, .msgCoin, false, [(true, 65846717), (false, 2039287544), (true, 2951588834)], false, false⟩,
+  ⟨.send, some .pool, some .outPool, .asset, false, [(true, 65846717), (false, 2039287544), (true, 2951588834)], false, false⟩,
+  ⟨.send, some .signer, some .pool, .msgCoin, false, [(true, 65846717), (false, 2039287544), (false, 2951588834), (true, 2940275843)], false, false⟩,
+  ⟨.send, some .pool, some .outPool, .asset, false, [(true, 65846717), (false, 2039287544), (false, 2951588834), (true, 2940275843)], false, false⟩,
   ⟨.send, some .outPool, some .signer, .msgCoin, false, [(true, 65846717)], false, false⟩,
   ⟨.send, some .signer, some .pool, .msgCoin, false, [(false, 65846717), (true, 245005271)], false, false⟩,
   ⟨.send, some .outPool, some .signer, .msgCoin, false, [(false, 65846717), (true, 245005271)], false, false⟩,
-  ⟨.send, some .signer, some .pool, .msgCoin, false, [(false, 65846717), (false, 245005271), (true, 237177220)], false, false⟩,
-  ⟨.send, some .pool, some .outPool, .asset, false, [(false, 65846717), (false, 245005271), (true, 237177220)], false, false⟩,
-  ⟨.send, some .outPool, some .signer, .msgCoin, false, [(false, 65846717), (false, 245005271), (true, 237177220)], false, false⟩,
-  ⟨.send, some .signer, some .pool, .msgCoin, false, [(false, 65846717), (false, 245005271), (false, 237177220), (true, 237177220)], false, false⟩,
-  ⟨.send, some .pool, some .outPool, .asset, false, [(false, 65846717), (false, 245005271), (false, 237177220), (true, 237177220)], false, false⟩,
-  ⟨.send, some .outPool, some .signer, .msgCoin, false, [(false, 65846717), (false, 245005271), (false, 237177220), (true, 237177220)], false, false⟩]
+  ⟨.send, some .signer, some .pool, .msgCoin, false, [(false, 65846717), (false, 245005271), (true, 571477843)], false, false⟩,
+  ⟨.send, some .pool, some .outPool, .asset, false, [(false, 65846717), (false, 245005271), (true, 571477843)], false, false⟩,
+  ⟨.send, some .outPool, some .signer, .msgCoin, false, [(false, 65846717), (false, 245005271), (true, 571477843)], false, false⟩,
+  ⟨.send, some .signer, some .pool, .msgCoin, false, [(false, 65846717), (false, 245005271), (false, 571477843), (true, 571477843)], false, false⟩,
+  ⟨.send, some .pool, some .outPool, .asset, false, [(false, 65846717), (false, 245005271), (false, 571477843), (true, 571477843)], false, false⟩,
+  ⟨.send, some .outPool, some .signer, .msgCoin, false, [(false, 65846717), (false, 245005271), (false, 571477843), (true, 571477843)], false, false⟩]
 
 def exp_Repay : List LPin := [
   ⟨.send, some .signer, some .outPool, .assetOut, false, [(true, 3819222389)], false, false⟩,
@@ -205,10 +205,10 @@ def exp_Repay : List LPin := [
 
 def exp_DepositBorrow : List LPin := [
   ⟨.send, some .signer, some .pool, .msgCoin, false, [(true, 3563383436)], false, false⟩,
-  ⟨.send, some .signer, some .pool, .msgCoin, false, [(false, 3563383436), (true, 1272532898)], false, false⟩,
-  ⟨.send, some .pool, some .outPool, .asset, false, [(false, 3563383436), (true, 1272532898)], false, false⟩,
-  ⟨.send, some .signer, some .pool, .msgCoin, false, [(false, 3563383436), (false, 1272532898), (true, 1858205449)], false, false⟩,
-  ⟨.send, some .pool, some .outPool, .asset, false, [(false, 3563383436), (false, 1272532898), (true, 1858205449)], false, false⟩]
+  ⟨.send, some .signer, some .pool, .msgCoin, false, [(false, 3563383436), (true, 834123723)], false, false⟩,
+  ⟨.send, some .pool, some .outPool, .asset, false, [(false, 3563383436), (true, 834123723)], false, false⟩,
+  ⟨.send, some .signer, some .pool, .msgCoin, false, [(false, 3563383436), (false, 834123723), (true, 2625736130)], false, false⟩,
+  ⟨.send, some .pool, some .outPool, .asset, false, [(false, 3563383436), (false, 834123723), (true, 2625736130)], false, false⟩]
 
 def exp_Draw : List LPin := [
   ⟨.send, some .outPool, some .signer, .msgCoin, false, [], false, false⟩]
@@ -230,36 +230,36 @@ def exp_BorrowAlternate : List LPin := [
   ⟨.mint, none, some .pool, .cAsset, false, [(true, 869575135)], false, false⟩,
   ⟨.send, some .pool, some .signer, .cAsset, false, [(true, 869575135)], false, false⟩,
   ⟨.send, some .signer, some .pool, .cAsset, false, [(true, 869575135), (true, 454575357), (true, 3841182008)], false, false⟩,
-  ⟨.send, some .signer, some .pool, .cAsset, false, [(true, 869575135), (true, 454575357), (false, 3841182008), (true, 2066943417)], false, false⟩,
-  ⟨.send, some .pool, some .outPool, .asset, false, [(true, 869575135), (true, 454575357), (false, 3841182008), (true, 2066943417)], false, false⟩,
-  ⟨.send, some .signer, some .pool, .cAsset, false, [(true, 869575135), (true, 454575357), (false, 3841182008), (false, 2066943417), (true, 2410691814)], false, false⟩,
-  ⟨.send, some .pool, some .outPool, .asset, false, [(true, 869575135), (true, 454575357), (false, 3841182008), (false, 2066943417), (true, 2410691814)], false, false⟩,
+  ⟨.send, some .signer, some .pool, .cAsset, false, [(true, 869575135), (true, 454575357), (false, 3841182008), (true, 592850414)], false, false⟩,
+  ⟨.send, some .pool, some .outPool, .asset, false, [(true, 869575135), (true, 454575357), (false, 3841182008), (true, 592850414)], false, false⟩,
+  ⟨.send, some .signer, some .pool, .cAsset, false, [(true, 869575135), (true, 454575357), (false, 3841182008), (false, 592850414), (true, 4007953295)], false, false⟩,
+  ⟨.send, some .pool, some .outPool, .asset, false, [(true, 869575135), (true, 454575357), (false, 3841182008), (false, 592850414), (true, 4007953295)], false, false⟩,
   ⟨.send, some .outPool, some .signer, .msgCoin, false, [(true, 869575135), (true, 454575357)], false, false⟩,
   ⟨.send, some .signer, some .pool, .cAsset, false, [(true, 869575135), (false, 454575357), (true, 245005271)], false, false⟩,
   ⟨.send, some .outPool, some .signer, .msgCoin, false, [(true, 869575135), (false, 454575357), (true, 245005271)], false, false⟩,
-  ⟨.send, some .signer, some .pool, .cAsset, false, [(true, 869575135), (false, 454575357), (false, 245005271), (true, 2975266668)], false, false⟩,
-  ⟨.send, some .pool, some .outPool, .asset, false, [(true, 869575135), (false, 454575357), (false, 245005271), (true, 2975266668)], false, false⟩,
-  ⟨.send, some .outPool, some .signer, .msgCoin, false, [(true, 869575135), (false, 454575357), (false, 245005271), (true, 2975266668)], false, false⟩,
-  ⟨.send, some .signer, some .pool, .cAsset, false, [(true, 869575135), (false, 454575357), (false, 245005271), (false, 2975266668), (true, 2975266668)], false, false⟩,
-  ⟨.send, some .pool, some .outPool, .asset, false, [(true, 869575135), (false, 454575357), (false, 245005271), (false, 2975266668), (true, 2975266668)], false, false⟩,
-  ⟨.send, some .outPool, some .signer, .msgCoin, false, [(true, 869575135), (false, 454575357), (false, 245005271), (false, 2975266668), (true, 2975266668)], false, false⟩,
+  ⟨.send, some .signer, some .pool, .cAsset, false, [(true, 869575135), (false, 454575357), (false, 245005271), (true, 1826140649)], false, false⟩,
+  ⟨.send, some .pool, some .outPool, .asset, false, [(true, 869575135), (false, 454575357), (false, 245005271), (true, 1826140649)], false, false⟩,
+  ⟨.send, some .outPool, some .signer, .msgCoin, false, [(true, 869575135), (false, 454575357), (false, 245005271), (true, 1826140649)], false, false⟩,
+  ⟨.send, some .signer, some .pool, .cAsset, false, [(true, 869575135), (false, 454575357), (false, 245005271), (false, 1826140649), (true, 1826140649)], false, false⟩,
+  ⟨.send, some .pool, some .outPool, .asset, false, [(true, 869575135), (false, 454575357), (false, 245005271), (false, 1826140649), (true, 1826140649)], false, false⟩,
+  ⟨.send, some .outPool, some .signer, .msgCoin, false, [(true, 869575135), (false, 454575357), (false, 245005271), (false, 1826140649), (true, 1826140649)], false, false⟩,
   ⟨.send, some .signer, some .pool, .msgCoin, false, [(false, 869575135)], false, false⟩,
   ⟨.mint, none, some .pool, .cAsset, false, [(false, 869575135)], false, false⟩,
   ⟨.send, some .pool, some .signer, .cAsset, false, [(false, 869575135)], false, false⟩,
   ⟨.send, some .signer, some .pool, .cAsset, false, [(false, 869575135), (true, 454575357), (true, 3841182008)], false, false⟩,
-  ⟨.send, some .signer, some .pool, .cAsset, false, [(false, 869575135), (true, 454575357), (false, 3841182008), (true, 2066943417)], false, false⟩,
-  ⟨.send, some .pool, some .outPool, .asset, false, [(false, 869575135), (true, 454575357), (false, 3841182008), (true, 2066943417)], false, false⟩,
-  ⟨.send, some .signer, some .pool, .cAsset, false, [(false, 869575135), (true, 454575357), (false, 3841182008), (false, 2066943417), (true, 2410691814)], false, false⟩,
-  ⟨.send, some .pool, some .outPool, .asset, false, [(false, 869575135), (true, 454575357), (false, 3841182008), (false, 2066943417), (true, 2410691814)], false, false⟩,
+  ⟨.send, some .signer, some .pool, .cAsset, false, [(false, 869575135), (true, 454575357), (false, 3841182008), (true, 592850414)], false, false⟩,
+  ⟨.send, some .pool, some .outPool, .asset, false, [(false, 869575135), (true, 454575357), (false, 3841182008), (true, 592850414)], false, false⟩,
+  ⟨.send, some .signer, some .pool, .cAsset, false, [(false, 869575135), (true, 454575357), (false, 3841182008), (false, 592850414), (true, 4007953295)], false, false⟩,
+  ⟨.send, some .pool, some .outPool, .asset, false, [(false, 869575135), (true, 454575357), (false, 3841182008), (false, 592850414), (true, 4007953295)], false, false⟩,
   ⟨.send, some .outPool, some .signer, .msgCoin, false, [(false, 869575135), (true, 454575357)], false, false⟩,
   ⟨.send, some .signer, some .pool, .cAsset, false, [(false, 869575135), (false, 454575357), (true, 245005271)], false, false⟩,
   ⟨.send, some .outPool, some .signer, .msgCoin, false, [(false, 869575135), (false, 454575357), (true, 245005271)], false, false⟩,
-  ⟨.send, some .signer, some .pool, .cAsset, false, [(false, 869575135), (false, 454575357), (false, 245005271), (true, 2865803140)], false, false⟩,
-  ⟨.send, some .pool, some .outPool, .asset, false, [(false, 869575135), (false, 454575357), (false, 245005271), (true, 2865803140)], false, false⟩,
-  ⟨.send, some .outPool, some .signer, .msgCoin, false, [(false, 869575135), (false, 454575357), (false, 245005271), (true, 2865803140)], false, false⟩,
-  ⟨.send, some .signer, some .pool, .cAsset, false, [(false, 869575135), (false, 454575357), (false, 245005271), (false, 2865803140), (true, 2865803140)], false, false⟩,
-  ⟨.send, some .pool, some .outPool, .asset, false, [(false, 869575135), (false, 454575357), (false, 245005271), (false, 2865803140), (true, 2865803140)], false, false⟩,
-  ⟨.send, some .outPool, some .signer, .msgCoin, false, [(false, 869575135), (false, 454575357), (false, 245005271), (false, 2865803140), (true, 2865803140)], false, false⟩]
+  ⟨.send, some .signer, some .pool, .cAsset, false, [(false, 869575135), (false, 454575357), (false, 245005271), (true, 3309566615)], false, false⟩,
+  ⟨.send, some .pool, some .outPool, .asset, false, [(false, 869575135), (false, 454575357), (false, 245005271), (true, 3309566615)], false, false⟩,
+  ⟨.send, some .outPool, some .signer, .msgCoin, false, [(false, 869575135), (false, 454575357), (false, 245005271), (true, 3309566615)], false, false⟩,
+  ⟨.send, some .signer, some .pool, .cAsset, false, [(false, 869575135), (false, 454575357), (false, 245005271), (false, 3309566615), (true, 3309566615)], false, false⟩,
+  ⟨.send, some .pool, some .outPool, .asset, false, [(false, 869575135), (false, 454575357), (false, 245005271), (false, 3309566615), (true, 3309566615)], false, false⟩,
+  ⟨.send, some .outPool, some .signer, .msgCoin, false, [(false, 869575135), (false, 454575357), (false, 245005271), (false, 3309566615), (true, 3309566615)], false, false⟩]
 
 def exp_FundModuleAccounts : List LPin := [
   ⟨.send, some .signer, some .pool, .msgCoin, false, [], false, false⟩,
@@ -300,7 +300,6 @@ def exp_RepayWithdraw : List LPin := [
   ⟨.send, some .signer, some .pool, .cAsset, false, [(false, 3330531126), (false, 2135521789)], false, false⟩,
   ⟨.burn, some .pool, none, .cAsset, false, [(false, 3330531126), (false, 2135521789)], false, false⟩,
   ⟨.send, some .pool, some .signer, .posCoin, false, [(false, 3330531126), (false, 2135521789)], false, false⟩]
-
 
 /-- the pairs (regenerated, reviewed) -/
 def lendPairs : List (String × Option (List LPin) × List LPin) := [
